@@ -28,6 +28,12 @@ var negControls = []struct {
 	{"MC_Walk", "MC_Walk_filters_noseen.cfg", "inv:NoOverflow|inv:WorkBounded"},
 	{"MC_Walk", "MC_Walk_filters_globals_ascoded.cfg", "inv:NoOverflow"},
 	{"MC_Walk", "MC_Walk_filters_nochain.cfg", "inv:ChainBounded"},
+	{"MC_Walk", "MC_Walk_decode_noguards.cfg", "inv:WorkBounded|inv:NoOverflow"},
+	{"MC_Walk", "MC_Walk_decode_noseen.cfg", "inv:WorkBounded|inv:NoOverflow"},
+	{"MC_Walk", "MC_Walk_fields_noseen.cfg", "inv:WorkBounded"},
+	{"MC_Walk", "MC_Walk_parents_noseen.cfg", "inv:WorkBounded|temporal"},
+	{"MC_Walk", "MC_Walk_objwalk_noseen.cfg", "inv:WorkBounded|inv:NoOverflow"},
+	{"MC_Walk", "MC_Walk_objwalk_ascoded.cfg", "inv:NoOverflow"},
 }
 
 func selfTest(ctx *core.Ctx) error {
@@ -94,15 +100,16 @@ func selfTest(ctx *core.Ctx) error {
 		recs = append(recs, res.Recs[0])
 	}
 	// (i) a real file's records, then each with one field corrupted
-	pl := &plan{info: map[string]*caseInfo{}}
+	pl := &plan{}
 	for _, s := range imageSeeds()[:1] {
 		pl.add(&Req{Data: s.Data}, "seed:image", s.Name, nil)
 	}
 	w0 := &Wiring{Walker: "pages", N: 2, Kind: []string{"Pages", "Page"}, A: []int{2, 0}, B: []int{1, 0}, Start: 1, Phase: "done", Out: []string{"2"}, Work: 2, Bound: 3}
 	pl.add(&Req{Wiring: w0, Variant: 1}, "wiring:pages", w0.key(), nil)
+	wid := pl.reqs[len(pl.reqs)-1].ID
 	var real []Rec
 	results := map[string]*Result{}
-	if err := pool.Run(pl.reqs, 2, func(r *Result) { results[r.Req.ID] = r; real = append(real, r.Recs...) }, nil); err != nil {
+	if err := pool.Run(iterReqs(pl.reqs), 2, func(r *Result) { results[r.Req.ID] = r; real = append(real, r.Recs...) }, nil); err != nil {
 		return err
 	}
 	if len(real) < 20 {
@@ -157,12 +164,12 @@ func selfTest(ctx *core.Ctx) error {
 
 	// (iii') a wrong expectation of the model is noticed
 	okProj := false
-	for _, r := range results["c000001"].Recs {
+	for _, r := range results[wid].Recs {
 		if r.Call == "probe/pages" {
-			okProj = fmt.Sprint(r.Proj) == fmt.Sprint(w0.expectedProj())
+			okProj = fmt.Sprint(r.Proj) == fmt.Sprint(w0.expected())
 			w1 := *w0
 			w1.Out = []string{"1", "2"}
-			if fmt.Sprint(r.Proj) == fmt.Sprint(w1.expectedProj()) {
+			if fmt.Sprint(r.Proj) == fmt.Sprint(w1.expected()) {
 				return core.Infra("self-test: a wrong expectation was not noticed")
 			}
 		}
@@ -197,6 +204,10 @@ func init() {
 		"outline":  "OutlineBegin OutlineReturn OutlineItem",
 		"nametree": "TreeBegin TreeDone TreeStep",
 		"filters":  "FiltersBegin FiltersOpen",
+		"decode":   "DecBegin DecChild DecDone DecRet DecEnd",
+		"fields":   "FieldsBegin FieldsStep FieldsDone",
+		"parents":  "ParentsBegin ParentsStep",
+		"objwalk":  "ObjBegin ObjStep ObjDone",
 	} {
 		for _, a := range strings.Fields(as) {
 			actionOf[a] = w
